@@ -649,7 +649,7 @@ func families(tier string) []fw.Family {
 	fs := []fw.Family{
 		ellFam,
 		curvedCCW,
-		crescentFamily(),
+		crescentFamily(), crescentGapFamily(),
 		hullFillingFamily(),
 		cubicFam,
 		flatFam("tri(L4)/rot closed", tri4, false),
